@@ -358,7 +358,7 @@ class LargeTables(Component):
     rule = "a token-disjoint pair and PositionFilter result strictly smaller than another's"
 
     def examples(self, tier):
-        return 8 if tier == "quick" else 50
+        return 12 if tier == "quick" else 300
 
     def strategy(self, tier):
         from .c02 import large_case
